@@ -31,7 +31,8 @@
  *   tv <T> <hex>         lyd_new_term on l_<T> -> E | <hex canonical> <detail>; detail = enum value | bits bitmap hex |
  *                        binary data hex | union member index | nothing
  *   cmp <T> <hex a> <hex b>   lyd_value_compare / lyd_compare_single as in t_types.c -> 0 | 1 | E
- *   srt <T> <hex a> <hex b>   both inserted (a first) as ll_<T> siblings: canonical values in the resulting order | E
+ *   srt <T> <hex a> <hex b> ...   all inserted in this order as ll_<T> siblings (lyd_insert_sibling, sorted insertion):
+ *                        canonical values in the resulting order | E
  */
 #include "common.h"
 #include "libyang.h"
@@ -70,6 +71,8 @@ static const struct tdef TYPES[] = {
     {"un_n", "union {type int8 {range \"1..10\";}}", 0},
     {"un2_s", "union {type string {length \"1\";}}", 0},
     {"un2_n", "union {type int8;}", 0},
+    /* all members are JSON strings (RFC 7951 6.1, 6.2, 6.4): the member order decides the canonical string in every format */
+    {"un3", "union {type uint64 {range \"0..100\";} type decimal64 {fraction-digits 2;} type string {length \"1..4\";}}", 0},
     {"idr", "identityref {base ba; base bb;}", 0},
     {"lref", "leafref {path \"/t2:tgt\"; require-instance false;}", 0},
     {"iid", "instance-identifier {require-instance false;}", 0},
@@ -747,35 +750,37 @@ do_cmp(struct lys_module *mod, struct vcase *c)
 static void
 do_srt(struct lys_module *mod, struct vcase *c)
 {
-    size_t la, lb;
-    char *a = vunhex(c->f[2], &la), *b = vunhex(c->f[3], &lb);
-    struct lyd_node *na = NULL, *nb = NULL, *first = NULL, *ch;
+    struct lyd_node *first = NULL, *n, *ch;
     char name[64];
+    int i, bad = 0, k = 0;
 
     snprintf(name, sizeof name, "ll_%s", c->f[1]);
-    if (memchr(a, 0, la) || memchr(b, 0, lb)) {
-        printf("NUL");
-    } else if (lyd_new_term(NULL, mod, name, a, 0, &na) || lyd_new_term(NULL, mod, name, b, 0, &nb)) {
-        printf("E");
-        lyd_free_all(na);
-        lyd_free_all(nb);
-    } else if (lyd_insert_sibling(na, nb, &first)) {
-        printf("E");
-        lyd_free_all(na);
-        lyd_free_all(nb);
-    } else {
-        int k = 0;
+    for (i = 2; (i < c->nf) && !bad; i++) {
+        size_t len;
+        char *v = vunhex(c->f[i], &len);
 
+        n = NULL;
+        if (memchr(v, 0, len) || lyd_new_term(NULL, mod, name, v, 0, &n) || !n) {
+            bad = 1;
+        } else if (!first) {
+            first = n;
+        } else if (lyd_insert_sibling(first, n, &first)) {
+            lyd_free_all(n);
+            bad = 1;
+        }
+        free(v);
+    }
+    if (bad) {
+        printf("E");
+    } else {
         for (ch = first; ch; ch = ch->next) {
             if (k++) {
                 fputc(' ', stdout);
             }
             put_str(lyd_get_value(ch));
         }
-        lyd_free_all(first);
     }
-    free(a);
-    free(b);
+    lyd_free_all(first);
 }
 
 int
